@@ -370,7 +370,7 @@ func parse_at(tokens []*Token, token_index int) (*AstLoop, int, error) {
 			loopName = nameToken.Lexeme
 			current_index += 1
 		} else {
-			return nil, current_index, parseError
+			return nil, current_index, NewParseError(nameToken, "Unexpected token. Expected a name for the loop.")
 		}
 	}
 
@@ -489,7 +489,7 @@ func parse_exactly(tokens []*Token, token_index int) (*AstLoop, int, error) {
 			loopName = nameToken.Lexeme
 			current_index += 1
 		} else {
-			return nil, current_index, parseError
+			return nil, current_index, NewParseError(nameToken, "Unexpected token. Expected a name for the loop.")
 		}
 	}
 
